@@ -8,9 +8,9 @@ from props import lexcommon as LC
 from props import luagen
 
 ID = 'C07'
-GEN_FILES = ['T_lexer', 'T_pins_lexer']
+GEN_FILES = ['T_lexer', 'T_pins_lexer', 'T_pins_luacontainer']
 COQ_PROPERTY = 'theories/Properties/C07.vo'
-COQ_EXTRA = ['theories/Proofs/LexerPins.vo']
+COQ_EXTRA = ['theories/Proofs/LexerPins.vo', 'theories/Proofs/LuaContainerPins.vo']
 MODEL = ('ExC07', 'c07_main.ml')
 MONITOR = ('MonC07', 'c07_mon_main.ml')
 RULE = ('one evaluation = one source text lexed by the implementation as a single chunk AND as per-line chunks (and, '
@@ -164,7 +164,8 @@ def corpus_cases():
     yield {'kind': 'corpus', 'srcs': [
         b'end\x80', b'x=0XA', b'x=0B11', b'x=0x.8', b'x="\\x41"', b'x=[[\nk]]', b'a\rb', b'--c\r\nx', b'a\n\rb',
         b'x=[[a\r\nb]]', b'x="a\\\r\nb"', b'a>>>=b', b'1..2', b'x=1e+5', b'--[==[c]==]', b't[ [[k]] ]',
-        b'0b1.1', b'?"hi"\n', b'a~=b', b'::l:: goto l', b'"\\256"', b'"', b'[[', b'--[[', b'\x0c']}
+        b'0b1.1', b'?"hi"\n', b'a~=b', b'::l:: goto l', b'"\\256"', b'"', b'[[', b'--[[', b'\x0c',
+        b'\xef\xbb\xbf = {}\n', b'x=\xef\xbb\xbf+1\n\xef\xbb\xbfy=2', b'\xff\xfe=1 \xfe\xff=2\n', b'a\xef\xbb\xbf=1']}
 
 
 # ------------------------------------------------------------------ implementation
